@@ -406,10 +406,10 @@ func (n *npCtx) provesLe(a, b lin) bool {
 	}
 	// the result of a package function: the bound holds if it holds for the value of every
 	// return statement, in the callee's own context extended by the facts at this call site
-	tryCall := func(call *ssa.Call, upper bool) bool {
+	tryCall := func(call *ssa.Call, idx int, upper bool) bool {
 		c := n.c
 		cal := call.Common().StaticCallee()
-		if cal == nil || cal.Blocks == nil || cal.Pkg != c.Pkg || cal.Signature.Results().Len() != 1 {
+		if cal == nil || cal.Blocks == nil || cal.Pkg != c.Pkg || idx >= cal.Signature.Results().Len() || (idx == 0 && cal.Signature.Results().Len() != 1 && !c.isNew(cal)) {
 			return false
 		}
 		for _, f := range c.frames {
@@ -436,7 +436,10 @@ func (n *npCtx) provesLe(a, b lin) bool {
 					}
 				}
 			}
-			le := m.linOf(ret.Results[0])
+			if idx >= len(ret.Results) {
+				return false
+			}
+			le := m.linOf(ret.Results[idx])
 			m.searchAxioms()
 			if upper {
 				if !m.provesLe(lin{le.sym, le.k + a.k}, b) {
@@ -449,12 +452,23 @@ func (n *npCtx) provesLe(a, b lin) bool {
 		return true
 	}
 	if call, ok := n.atoms[a.sym].(*ssa.Call); ok && a.sym != "" {
-		if tryCall(call, true) {
+		if tryCall(call, 0, true) {
 			return true
 		}
 	}
 	if call, ok := n.atoms[b.sym].(*ssa.Call); ok && b.sym != "" {
-		if tryCall(call, false) {
+		if tryCall(call, 0, false) {
+			return true
+		}
+	}
+	// one result of a multi-result helper: (pos, suffix) := wrapBreak(line, l)
+	if ex, ok := n.atoms[a.sym].(*ssa.Extract); ok && a.sym != "" {
+		if call, ok := ex.Tuple.(*ssa.Call); ok && tryCall(call, ex.Index, true) {
+			return true
+		}
+	}
+	if ex, ok := n.atoms[b.sym].(*ssa.Extract); ok && b.sym != "" {
+		if call, ok := ex.Tuple.(*ssa.Call); ok && tryCall(call, ex.Index, false) {
 			return true
 		}
 	}
